@@ -445,6 +445,14 @@ def lifecycle (t : Step) : Viol :=
            "a finished context (killed, one-shot expired or total reached) was not removed at its batch expiry"
        | _ => []) ++
       chk (x.svc == y.svc && x.cons == y.cons && x.super == y.super && x.rep == y.rep && x.mod == y.mod) "immutable field of a context changed" ++
+      -- providers, cap, timeout, frequency, total and threshold are what the consumer (or the owning module) set:
+      -- they change only in an accepted update aimed at this context
+      chk ((x.provs == y.provs && x.cap == y.cap && x.timeout == y.timeout && x.freq == y.freq && x.total == y.total && x.thr == y.thr) ||
+           (t.ok && (match t.op with
+                     | .updatectx c' _ _ _ _ _ _ => c' == c
+                     | .modupdate c' _ _ _ _ _ _ _ => c' == c
+                     | _ => false)))
+        "providers, fee cap, timeout, frequency, total or threshold of a context changed without an update of that context" ++
       chk (y.batch == x.batch || y.batch == x.batch + 1) "batch counter did not stay or advance by one" ++
       chk (y.batch == x.batch || (x.state == .running && (match t.op with | .endblock _ => true | _ => false))) "batch issued for a context that is not running, or outside end-of-block" ++
       chk (x.state != .completed || y.state == .completed) "completed context left the completed state" ++
